@@ -48,6 +48,9 @@ UNITS += [
         /*@uncacheable_types_bypass_the_cache*/ !(tpe is Snapshot || tpe is Index) ==> final(self).cache@ == old(self).cache@ && (r matches Ok(d) ==> old(self).be@.dom().contains((tpe, *id))),
         /*@read_fills_cache_only_with_this_file*/ final(self).cache@ == old(self).cache@ || final(self).cache@ == old(self).cache@.insert((tpe, *id), CONTENT((tpe, *id))),
         /*@read_keeps_stores_content_addressed*/ final(self).content_addressed() && final(self).be@ == old(self).be@,
+        // "the same results whether or not the cache is enabled": whatever is in the cache directory (stale, truncated,
+        // unreadable entries), a read the backend alone answers is answered
+        /*@cached_read_succeeds_whenever_the_backend_alone_would*/ BE_ANSWERS(old(self).be, (tpe, *id)) ==> r is Ok,
 """),
     Unit(name="cb_read_partial", file=CA, anchor="fn read_partial(\n        &self,", within=WR, ret_name="r", **W,
          functions=["<backend::cache::CachedBackend as ReadBackend>::read_partial"],
@@ -62,6 +65,7 @@ UNITS += [
         /*@ranged_read_of_uncacheable_bypasses_cache*/ !(cacheable || tpe is Snapshot || tpe is Index) ==> final(self).cache@ == old(self).cache@,
         /*@ranged_read_fills_cache_only_with_this_file*/ final(self).cache@ == old(self).cache@ || final(self).cache@ == old(self).cache@.insert((tpe, *id), CONTENT((tpe, *id))),
         /*@ranged_read_keeps_stores_content_addressed*/ final(self).content_addressed() && final(self).be@ == old(self).be@,
+        /*@cached_ranged_read_succeeds_whenever_the_backend_alone_would*/ BE_ANSWERS(old(self).be, (tpe, *id)) && offset + length <= old(self).be@[(tpe, *id)].len() ==> r is Ok,
 """),
     Unit(name="cb_write_bytes", file=CA, anchor="fn write_bytes(\n        &self,", within=WW, ret_name="r", **W,
          functions=["<backend::cache::CachedBackend as WriteBackend>::write_bytes"],
